@@ -1,2 +1,47 @@
-(* C13 (statements follow) *)
-From GJS Require Import Base Regex Schema GoType Gen.
+(* C13 - equivalent spellings of a schema generate identical code.
+   Statements only; every proof is `exact <lemma>`; Print Assumptions under each.
+   The re-spellable keywords are decoded by Model/Decode.v (transcribing pkg/schemas/model.go and
+   extractRefNames); each theorem says two spellings decode to the same thing, so everything
+   downstream (the generator works on the decoded form only) is identical.  JSON versus YAML text
+   is library parsing and is decided by the metamorphic run on the real tool. *)
+From GJS Require Import Base Decode DecodeP.
+
+Theorem C13_type_string_or_list : forall t, t <> [] -> decode_type_list (JStr t) = decode_type_list (JArr [JStr t]).
+Proof. exact type_string_or_list. Qed.
+Print Assumptions C13_type_string_or_list.
+
+Theorem C13_true_or_empty : decode_bool_schema (JBool true) = decode_bool_schema (JObj []).
+Proof. exact true_is_empty_object. Qed.
+Print Assumptions C13_true_or_empty.
+
+Theorem C13_id : forall (o : obj) s, lookup k_id o = None -> lookup k_legacy_id o = None -> s <> [] ->
+  decode_id ((k_id, JStr s) :: o) = decode_id ((k_legacy_id, JStr s) :: o).
+Proof. exact id_spellings. Qed.
+Print Assumptions C13_id.
+
+Theorem C13_defs : forall (o : obj) d, lookup k_defs o = None -> lookup k_definitions o = None -> d <> JNull ->
+  decode_defs ((k_defs, d) :: o) = decode_defs ((k_definitions, d) :: o).
+Proof. exact defs_spellings. Qed.
+Print Assumptions C13_defs.
+
+Theorem C13_dependencies : forall (o : obj) d, lookup k_dependent_schemas o = None -> lookup k_dependencies o = None -> d <> JNull ->
+  decode_dependents ((k_dependent_schemas, d) :: o) = decode_dependents ((k_dependencies, d) :: o).
+Proof. exact dependents_spellings. Qed.
+Print Assumptions C13_dependencies.
+
+(* #/$defs/X and #/definitions/X name the same definition of the same file, for every X and file part *)
+Theorem C13_ref_prefix : forall file x, Forall (fun c => c <> 35%N) file ->
+  extract_ref_names (file ++ 35%N :: p_defs ++ x) = Some (x, file) /\
+  extract_ref_names (file ++ 35%N :: p_definitions ++ x) = Some (x, file).
+Proof. exact ref_prefix_spellings. Qed.
+Print Assumptions C13_ref_prefix.
+(* ... in any letter case of the prefix *)
+Theorem C13_ref_prefix_case : forall file pre x, Forall (fun c => c <> 35%N) file -> length pre = length p_defs ->
+  map ascii_lower pre = p_defs -> extract_ref_names (file ++ 35%N :: pre ++ x) = Some (x, file).
+Proof. exact ref_prefix_case_insensitive. Qed.
+Print Assumptions C13_ref_prefix_case.
+
+(* when both spellings are present they are not equivalent: the current one wins (part of the decoder, excluded from the property) *)
+Theorem C13_precedence : forall (o : obj) d d', d <> JNull -> decode_defs ((k_defs, d) :: (k_definitions, d') :: o) = Some d.
+Proof. exact defs_precedence. Qed.
+Print Assumptions C13_precedence.
